@@ -269,3 +269,8 @@ Proof.
   destruct (predict_row_map [-3; 7; 250]%Z [1; 1; 1]%R (fun k => match k with 1%nat => 2 | _ => 0 end)%R)
     as (k & Hk & _); [discriminate | rewrite Hk; discriminate].
 Qed.
+
+(* the extra hypothesis of C11_categorical_predict_is_map (query entries convertible) is satisfiable *)
+Example C11_categorical_query_instance :
+  forall row, In row [[1; 1]; [1; 1]]%R -> forall v, In v row -> (fun _ : R => Some 1) v <> None.
+Proof. intros row _ v _. discriminate. Qed.
